@@ -307,7 +307,10 @@ func runChart(x *exec, rng *rand.Rand) {
 		files[userValuesFile] = cp.values[rng.Intn(len(cp.values))]
 	}
 	files[userValuesFile] = append(append([]byte(nil), files[userValuesFile]...), []byte(fzValues)...)
-	unbounded := rng.Intn(3000) == 0
+	unbounded := rng.Intn(1000) == 0
+	if unbounded {
+		files[userValuesFile] = append(files[userValuesFile], []byte(fzValuesUnbounded)...)
+	}
 	var desc []string
 	if rng.Intn(100) < 3 && !unbounded {
 		desc = append(desc, "pristine")
